@@ -4,7 +4,7 @@
 //! REAL files, with small shell "compilers" that answer the gcc detection probe, echo
 //! the source on `-E`, write a stamped object on `-c`, and log every invocation.
 //!
-//! case   = ( op ... )         op = ( swap d n b m ) | ( retarget d n d2 n2 ) | ( remove d n )
+//! case   = ( op ... )         op = ( swap d n b m ) | ( rewrite d n b m ) | ( retarget d n d2 n2 ) | ( remove d n )
 //!                                  | ( touch d n m ) | ( compile d n src )
 //!                                  | ( compile d n src ( envop ... ) )
 //!          A compile op with a non-empty envop list is a request DURING WHOSE DETECTION PROBE the
@@ -123,6 +123,19 @@ impl World {
                 std::fs::set_permissions(&tmp, std::fs::Permissions::from_mode(0o755)).unwrap();
                 filetime::set_file_mtime(&tmp, ft(op.arg(4).u64())).unwrap();
                 std::fs::rename(&tmp, &p).unwrap();
+                true
+            }
+            "rewrite" => {
+                // the same change made IN PLACE: the regular file at the path keeps its inode (cp over it,
+                // `cat new > path`, an editor); anything else at the path is replaced as by `swap`
+                let p = self.path(op.arg(1).u64(), op.arg(2).u64());
+                let is_reg = std::fs::symlink_metadata(&p).map(|m| m.file_type().is_file()).unwrap_or(false);
+                if !is_reg {
+                    let _ = std::fs::remove_file(&p);
+                }
+                std::fs::write(&p, script(op.arg(3).u64(), &self.root)).unwrap();
+                std::fs::set_permissions(&p, std::fs::Permissions::from_mode(0o755)).unwrap();
+                filetime::set_file_mtime(&p, ft(op.arg(4).u64())).unwrap();
                 true
             }
             "retarget" => {
